@@ -6,6 +6,5 @@ INVARIANT ParsePrintExact
 INVARIANT ParseSpacedExact
 INVARIANT RoundTrip
 INVARIANT NormIdempotent
-INVARIANT SourceAndNormAgree
 CONSTRAINT Emit
 CHECK_DEADLOCK FALSE
